@@ -55,6 +55,7 @@ class InMemoryMessageBroker(MessageBrokerT):
         for msg in q.processing:
             if msg.key.id_ == key.id_:
                 q.processing.remove(msg)
+                q.holders.pop(msg, None)
                 q.simple.put_nowait(msg)
                 break
 
@@ -68,6 +69,7 @@ class InMemoryMessageBroker(MessageBrokerT):
         for msg in q.processing:
             if msg.key.id_ == key.id_:
                 q.processing.remove(msg)
+                q.holders.pop(msg, None)
                 break
 
         await asyncio.sleep(0)
@@ -80,6 +82,7 @@ class InMemoryMessageBroker(MessageBrokerT):
         for msg in q.processing:
             if msg.key.id_ == key.id_:
                 q.processing.remove(msg)
+                q.holders.pop(msg, None)
                 q.dead.append(msg)
                 break
 
@@ -102,6 +105,7 @@ class InMemoryMessageBroker(MessageBrokerT):
         for msg in q.processing:
             if msg.key.id_ == key.id_:
                 q.processing.remove(msg)
+                q.holders.pop(msg, None)
                 break
         if delay is not None:
             q.delayed.setdefault(delay, []).append(new_msg)
